@@ -168,7 +168,7 @@ def run(tier):
     th = [n for n in ast.parse(src).body if isinstance(n, ast.ClassDef) and n.name == "Theory"][0]
     fields, _ = read_init(th)
 
-    ok = chk.prove() and not tr_failed
+    ok = chk.prove(extra_targets=["models/TheoryOracle.vo"]) and not tr_failed
     # ---------------- correspondence -------------------------------------
     lib.clean_cases(chk.dir)
     mk = _theories(mod, fields)
